@@ -399,6 +399,7 @@ func checkC08(c *Ctx, e *Env) {
 	c.Min("handlers with a role row", 38, len(roles))
 	c.Min("effect visits checked", 300, nEff)
 	c.ExpectCanary("C08.AUTH")
+	ruleUpdateTakesEffect(c, m, r, "C08.EFFECT", nil)
 }
 
 func describeEvent(st *State, ev *Event) string {
@@ -736,4 +737,63 @@ func paidFill(h *HandlerResult, o *Outcome, ev *Event, addr string, te Lin) stri
 		return ""
 	}
 	return "no payment SendCoins(buyer → seller) on the path"
+}
+
+// updateSpecs: the single-field update handlers and the value each must store.
+var updateSpecs = []struct{ handler, table, col, reqField string }{
+	{"base.UpdateClassAdmin", "Class", "Admin", "NewAdmin"},
+	{"base.UpdateClassMetadata", "Class", "Metadata", "NewMetadata"},
+	{"base.UpdateProjectAdmin", "Project", "Admin", "NewAdmin"},
+	{"base.UpdateProjectMetadata", "Project", "Metadata", "NewMetadata"},
+	{"base.UpdateBatchMetadata", "Batch", "Metadata", "NewMetadata"},
+	{"basket.UpdateCurator", "Basket", "Curator", "NewCurator"},
+	{"basket.UpdateDateCriteria", "Basket", "DateCriteria", "NewDateCriteria"},
+}
+
+// ruleUpdateTakesEffect: an authorised update is not only permitted, it happens — every committed path
+// of a single-field update handler writes the entity with the column set to the value the request
+// carries (a path that reports success without the write, e.g. an "unchanged, skip" shortcut whose
+// equality test is too coarse, leaves the old value in force).
+func ruleUpdateTakesEffect(c *Ctx, m *Model, r *E1, rule string, only map[string]bool) {
+	p := m.P
+	for _, sp := range updateSpecs {
+		if only != nil && !only[sp.handler] {
+			continue
+		}
+		h := r.byKey[sp.handler]
+		if h == nil {
+			c.Undecide(rule, sp.handler, "-", "handler not found")
+			continue
+		}
+		bad := ""
+		n := 0
+		for _, o := range h.Outs {
+			if o.Kind != exitReturn {
+				continue
+			}
+			n++
+			st := o.St
+			wrote := false
+			got := ""
+			for i := range st.events {
+				ev := &st.events[i]
+				if ev.Kind != "write" || ev.Table == nil || ev.Table.Name != sp.table || ev.Row == nil {
+					continue
+				}
+				got = st.canon(ev.Row[sp.col])
+				if strings.Contains(got, "req."+sp.reqField) {
+					wrote = true
+				}
+			}
+			if !wrote && bad == "" {
+				if got == "" {
+					bad = "a committed path writes no " + sp.table + " row"
+				} else {
+					bad = "a committed path stores " + sp.table + "." + sp.col + " = " + got
+				}
+				bad += " (required: the value of req." + sp.reqField + ") on path {" + clip(strings.Join(st.facts, " "), 300) + "}"
+			}
+		}
+		c.Check(bad == "" && n > 0, rule, sp.handler+"#takes-effect", p.Pos(h.Fn.Pos()), fmt.Sprintf("on all %d committed paths %s.%s is written with the value of req.%s %s", n, sp.table, sp.col, sp.reqField, bad))
+	}
 }
